@@ -3,6 +3,7 @@ pub mod c01;
 pub mod c02;
 pub mod c03;
 pub mod c04;
+pub mod c11;
 pub mod c17;
 
 pub fn dispatch(ctx: &mut Ctx) -> bool {
@@ -12,6 +13,7 @@ pub fn dispatch(ctx: &mut Ctx) -> bool {
         "C03" => c03::run(ctx),
         "C03child" => c03::run_child(ctx),
         "C04" => c04::run(ctx),
+        "C11" => c11::run(ctx),
         "C17" => c17::run(ctx),
         _ => return false,
     }
